@@ -11,11 +11,11 @@ PROPS = {}
 HOOK_COMMITS = ["7a26697"]
 NOT_APPLICABLE = {
     "C02": "acceptance is decided by pass 1/pass 2 over a Vec<Stmt> with HashMap<String,_> and BTreeMap: symbolic execution of SymbolTable::new on a 5-statement all-concrete AST (stack array, S-hash/S-upper stubs) did not finish in 600 s / 11 GB (DESIGN.md section 9); there is no public kernel below it",
-    "C03": "needs the logos lexer + parser on symbolic text (3 symbolic bytes: symex out of memory, section 1); the token-level hook was not sufficient to carry the property (section 5b)",
+    "C03": "needs the logos lexer + parser on symbolic text (3 symbolic bytes: symex out of memory, DESIGN.md section 1). A token-level variant (hook Parser::verif_from_tokens) would drive the Parse impls over a heap Vec<(Token, Span)> with String payloads - the heap-Vec limitation of section 9 - and would not carry the layout-insensitivity half of the property anyway; not built",
     "C04": "needs parse_ast / the lexer loop on arbitrary strings: symbolic execution runs out of memory for 3 symbolic bytes (DESIGN.md section 1)",
     "C11": "multi-step executions of the OS routines (13+ steps per character; one symbolic step costs 13 M SAT variables / 8 min): out of reach within the caps (DESIGN.md section 5)",
     "C12": "compares whole program runs under two flag settings, incl. the OS exception messages (~400 steps each): out of reach (DESIGN.md section 5); single-step entry into the handlers is decided under C08",
-    "C13": "run/step_over/step_out loop over single steps; only the one-step core is decided (C08). Multi-step equivalence needs >= 2 symbolic steps per harness (2 x 13 M SAT variables): not attempted within the time available",
+    "C13": "run_while is a loop around step(): Kani has one unwinding bound per harness, and the harness's own bookkeeping loops need 11, so the run loop is unrolled 11 times with a full symbolic step each (2 x 20 GB, no verdict after 20 min in symex). The one-step core that run/step_over/step_out iterate is decided by C08; harness kept in kani/src/c13.rs, unregistered",
     "C17": "ObjectFile is a BTreeMap<u16, Vec<_>> + HashMap<String,_>: building a 1-block object and inserting one block (all keys concrete) did not finish symbolic execution in 300-600 s (B-tree node code, DESIGN.md section 9)",
     "C18": "text format: line splitting, str::parse, escape_default/unescaper over Strings plus the BTreeMap/HashMap containers of C17: out of reach (DESIGN.md sections 5, 9)",
     "C19": "deserializers build BTreeMap/HashMap<String,_> (see C17); 8 symbolic bytes after the magic: still in symex at 620 s / 6.5 GB (DESIGN.md section 9)",
@@ -31,7 +31,7 @@ NOT_APPLICABLE = {
 }
 
 PROPS["C35"] = dict(
-    level="model_checking",
+    level="model_checking", exhaustive=True,
     claim="For every N in 1..=16 and every i16/u16 value, Offset::new accepts exactly the representable values and stores them, and new_trunc yields the sign/zero extension of the low N bits; decided by the SAT solver over the full 16-bit input space for each of the 32 generic instantiations (no sampling, no input bound).",
     note="Trusts Kani's MIR->goto translation, CBMC and CaDiCaL; the oracle is a mask/compare model in kani/src/c35.rs.",
     design_ref="DESIGN.md section 4 (C35)",
@@ -49,7 +49,7 @@ PROPS["C35"] = dict(
 )
 
 PROPS["C06"] = dict(
-    level="model_checking",
+    level="model_checking", exhaustive=True,
     claim="For all 65536 words decode succeeds exactly on canonical encodings with the documented error kinds, decoded fields equal the ISA bit-field table and re-encoding returns the word; for every representable instruction encode matches the table and decode(encode(i)) == i. Both directions are decided symbolically at full width.",
     note="Oracle: independent bit-field decoder/encoder kani/src/spec/instr.rs (self-checked inside the same query). Trusts Kani/CBMC/CaDiCaL.",
     design_ref="DESIGN.md section 4 (C06)",
@@ -66,7 +66,7 @@ PROPS["C06"] = dict(
 )
 
 PROPS["C15"] = dict(
-    level="model_checking",
+    level="model_checking", exhaustive=True,
     claim="2-safety by self-composition at full width: for +, -, &, ! (and the += / -= forms with Word, u16, i16) any two executions whose operands agree on their initialised bits agree on every result bit reported initialised; fully initialised operands give fully initialised wrapping results.",
     note="Uses the hook Word::verif_from_parts to build arbitrary (data, init) pairs. Trusts Kani/CBMC/CaDiCaL.",
     design_ref="DESIGN.md section 4 (C15)",
@@ -99,15 +99,18 @@ _C08_CLASSES = ["op0_br", "op1_add", "op2_ld", "op3_st", "op4_jsr", "op5_and", "
                 "op10_ldi", "op11_sti", "op12_jmp", "op13_res", "op14_lea", "op15_trap", "irq", "iofetch", "g_alu", "g_mem", "g_sys", "all"]
 PROPS["C08"] = dict(
     level="model_checking",
-    jobs=5,
+    jobs=3, heavy_jobs=2,
     claim="One step_in from an ARBITRARY machine state (all 65536 memory words, registers with init masks, PC, raw PSR, saved SP, frame depth, flags real_traps/ignore_privilege symbolic; strict off) equals the independent ISA model on result kind, R0-R7, PC, PSR, saved SP, prefetch flag, instruction counter, frame depth, every memory cell and the ordered device calls. Because the pre-state is unconstrained this is the induction step for executions of any length.",
-    note="Device hub and observer container abstracted by stubs S-dev/S-obs (their own properties: C32-C34, C28); internal-register mappings empty; interrupt vectors x00-x02 excluded; ISA model kani/src/spec/isa.rs is the oracle.",
+    note="Device hub and observer container abstracted by stubs S-dev/S-obs (their own properties: C32-C34, C28). c08_all runs with no internal-register mapping, c08_iregs with the default ones (PSR xFFFC, MCR xFFFE): accesses there reach the register and never a device. Interrupt vectors x00-x02 excluded; ISA model kani/src/spec/isa.rs is the oracle.",
     design_ref="DESIGN.md section 3 (C08)",
     bounds="exactly one step_in per harness; 18 harness classes (16 opcodes with the 12 operand bits symbolic, pending interrupt, fetch from the I/O page); unwind 9; strict = false; debug_frames = false",
-    outside="multi-step runs (by induction only), strict mode (C14), devices' internals (C32-C34), ireg mappings (C32), instructions_run wrap",
+    outside="multi-step runs (by induction only), strict mode (C14), devices' internals (C32-C34), register mappings other than the default two, OS-entry pushes landing on the mapped registers, instructions_run wrap",
     assumptions=_K_STUBS + ["frame depth < 2^64-1", "interrupt vectors >= x03", "CBMC pointer checks off (--no-memory-safety-checks): memory safety of std's unsafe code is trusted"],
     harnesses=[H("c08_all", stubbing=True, kani_args=_K_ARGS, encodes=_K_ENC, heavy=True, timeout=1800,
-                 bound="one step; fetched word, pending interrupt and PC (incl. the I/O page) all symbolic")] +
+                 bound="one step; fetched word, pending interrupt and PC (incl. the I/O page) all symbolic"),
+               H("c08_iregs", module="c08::ir", stubbing=True, kani_args=_K_ARGS, encodes=_K_ENC + ["Simulator::mmap_internal", "InternalRegister::{read,write}", "PSR::set"], heavy=True, timeout=1800,
+                 cover_tags=["step", "mem", "calls", "depth", "iregs"],
+                 bound="as c08_all, with the default internal-register mappings installed (PSR at xFFFC, MCR at xFFFE, MCR value symbolic); stack pointers not within 3 words of the top of memory")] +
               [H("c08_" + c, tier="thorough", stubbing=True, kani_args=_K_ARGS, encodes=_K_ENC, bound="one step, class " + c, timeout=2400)
                for c in _C08_CLASSES if c != "all"],
 )
@@ -147,9 +150,15 @@ PROPS["C33"] = dict(
 )
 
 
-def _kfam(prefix, quick, thorough, **kw):
-    hs = [H(prefix + q, stubbing=True, kani_args=_K_ARGS, encodes=_K_ENC, heavy=True, timeout=1800, bound="one step_in, everything symbolic", **kw) for q in quick]
-    hs += [H(prefix + t, tier="thorough", stubbing=True, kani_args=_K_ARGS, encodes=_K_ENC, timeout=2400, bound="one step_in, class " + t, **kw) for t in thorough]
+def _kfam(prefix, quick, thorough, cover_tags=None, thorough_tags=None, **kw):
+    """quick: all-in-one harnesses (must satisfy every cover of their assertion group);
+    thorough: per-class harnesses - a class may be unable to reach some covers of the group
+    (e.g. no frame pop in the load/store class), so only the generic step covers are required of them
+    unless thorough_tags is given."""
+    qt = [] if cover_tags == [] else ["step"] + (cover_tags or [])
+    tt = (["step"] + thorough_tags) if thorough_tags is not None else ["step"]
+    hs = [H(prefix + q, stubbing=True, kani_args=_K_ARGS, encodes=_K_ENC, heavy=True, timeout=1800, bound="one step_in, everything symbolic", cover_tags=qt, **kw) for q in quick]
+    hs += [H(prefix + t, tier="thorough", stubbing=True, kani_args=_K_ARGS, encodes=_K_ENC, timeout=2400, bound="one step_in, class " + t, cover_tags=tt, **kw) for t in thorough]
     return hs
 
 _K_ASSUME = _K_STUBS + ["frame depth < 2^64-1", "interrupt vectors >= x03", "CBMC pointer checks off (--no-memory-safety-checks): memory safety of std's unsafe code is trusted"]
@@ -186,14 +195,15 @@ PROPS["C16"] = dict(
     harnesses=_kfam("c16_", ["any_all"], ["any_alu", "any_mem", "any_sys", "any_irq", "any_iofetch"]),
 )
 PROPS["C27"] = dict(
-    level="model_checking", jobs=3,
-    claim="(a) one step_in from an arbitrary state and arbitrary frame depth (incl. 0): FrameStack::len() is old+1 after JSR/JSRR/TRAP/interrupt entry/real-trap exception entry, saturating old-1 after JMP R7 and RTI, unchanged otherwise (also on every error path).",
-    note="Depth only in the quick tier; debug-frame contents are thorough-tier harnesses. Stubs as in C08.",
+    level="model_checking", jobs=3, heavy_jobs=2,
+    claim="(a) one step_in from an arbitrary state and arbitrary frame depth (incl. 0): FrameStack::len() is old+1 after JSR/JSRR/TRAP/interrupt entry/real-trap exception entry, saturating old-1 after JMP R7 and RTI, unchanged otherwise (also on every error path). (b, thorough tier: c27_frames_all needs 37 GB / 16 min) with debug_frames on, from an empty frame list: the list length equals the depth and the pushed Frame holds the calling / interrupted / faulting instruction's address, the subroutine start or vector, the call kind, and no arguments when no signature is registered.",
+    note="Registered signatures (arguments, frame pointer) and the built-in trap table are NOT covered (HashMap<_, ParameterList> with Strings). Stubs as in C08.",
     design_ref="DESIGN.md section 3 (C27)",
     bounds="one step; unwind 10; debug_frames = false (quick)",
     outside="frame list contents with debug_frames (thorough), built-in trap signatures",
     assumptions=_K_ASSUME,
-    harnesses=_kfam("c27_", ["depth_all"], ["depth_alu", "depth_sys", "depth_irq", "depth_mem"], cover_tags=["depth"]),
+    harnesses=_kfam("c27_", ["depth_all"], ["depth_alu", "depth_sys", "depth_irq", "depth_mem"], cover_tags=["depth"]) +
+              [dict(h, tier="thorough", timeout=3000) for h in _kfam("c27_", ["frames_all"], [], cover_tags=["depth", "frames"])],
 )
 PROPS["C28"] = dict(
     level="model_checking", jobs=3,
@@ -209,10 +219,10 @@ PROPS["C28"] = dict(
 PROPS["C32"] = dict(
     level="model_checking", jobs=4,
     claim="(a) For 7 operation histories of fixed shape and fully symbolic arguments over add_device(2 symbolic ports), remove_device(symbolic id), set_keyboard, set_display, io_read, io_write on a fresh DeviceHandler, each followed by a probe at an arbitrary address: add_device succeeds exactly when all ports are I/O addresses owned by no device, ids strictly increase and are never reused, removal frees non-fixed ports and keeps keyboard/display ports reserved, and every read/write reaches exactly the device that owns the port (with the right arguments) or nothing.",
-    note="Recording devices with distinct tags; port-ownership model in kani/src/c32.rs. Concrete history shapes (the heap shape of the device vector), symbolic ports/ids/addresses/data. Precedence of internal-register mappings over devices (mmap_internal) is not yet covered.",
+    note="Recording devices with distinct tags; port-ownership model in kani/src/c32.rs. Concrete history shapes (the heap shape of the device vector), symbolic ports/ids/addresses/data. Precedence of internal-register mappings (mmap_internal) over devices is NOT covered: the harness for it (c32::mm::c32_mmio_precedence, kept unregistered) inserts into a HashMap<u16, InternalRegister> with a symbolic key and did not leave symbolic execution in 25 min (hashbrown insert / rehash paths).",
     design_ref="DESIGN.md section 5 (C32)",
     bounds="histories: add+write, add+add, add+remove+add, set_keyboard+remove+add, set_display+write, set_keyboard+set_display+read, add+add+remove+add (thorough); 2 ports per added device; unwind 514 (remove_device sweeps the 512-entry port table)",
-    outside="other history shapes and longer histories; more than 2 ports per device; > 65535 devices; mmap_internal precedence",
+    outside="other history shapes and longer histories; more than 2 ports per device; > 65535 devices; mmap_internal / munmap_internal precedence",
     assumptions=["Kani/CBMC/CaDiCaL"],
     harnesses=[H("c32_" + n, tier=t, stubbing=True, encodes=["DeviceHandler::{new,add_device,remove_device,set_keyboard,set_display,get_dev_id,set_port}", "<DeviceHandler as ExternalDevice>::{io_read,io_write}", "SimDevice dispatch"], bound="history " + n + " + probe", timeout=1500)
                for n, t in [("add_rw", "quick"), ("add_add", "quick"), ("add_remove_add", "quick"), ("kb_remove_add", "quick"), ("ds_write", "quick"), ("kb_ds_read", "quick"), ("add_add_remove_add", "thorough")]],
@@ -253,7 +263,7 @@ PROPS["C25"] = dict(
     harnesses=[H("c25_pos_nl%d" % n, encodes=["SourceInfo::{count_lines,get_pos_pair,get_line,raw_line_span}"], bound="%d newline(s)" % n) for n in range(4)],
 )
 PROPS["C10"] = dict(
-    level="model_checking", jobs=2,
+    level="model_checking", jobs=2, heavy_jobs=2,
     claim="(a)+(c) gate, entry state and polling discipline: the irq class of the K-step family - a pending vectored interrupt is taken iff its (clamped) priority exceeds PSR's, enters supervisor mode at mem[x100+vect] with old PSR/PC pushed on the supervisor stack, CC=z, priority set, exactly one poll before any memory access, lower-priority requests fall through to the fetch, external interrupts surface as SimErr::Interrupt. (b) arbitration: DeviceHandler::poll_interrupt over three devices with symbolic requests delivers a request of maximal priority and polls each device exactly once.",
     note="(d) transparency of a register-preserving handler (entry ; RTI brackets to the identity) is a thorough-tier two-step harness. Timing 'only at an instruction boundary' follows from the single poll at the start of _step_inner (asserted through the device call log).",
     design_ref="DESIGN.md section 3 (C10)",
@@ -261,8 +271,8 @@ PROPS["C10"] = dict(
     outside="handler bodies; nesting beyond one entry; keyboard/timer as interrupt sources (C33/C34 at device level)",
     assumptions=_K_ASSUME,
     harnesses=[
-        H("c10_arbitration", stubbing=True, encodes=["<DeviceHandler as ExternalDevice>::poll_interrupt", "Interrupt::{vectored,external,priority}", "SimDevice::poll_interrupt"], bound="3 devices, any requests"),
-        H("c10_irq_entry", module="c10::k", cover_tags=["mem", "calls", "depth"], stubbing=True, kani_args=_K_ARGS, encodes=_K_ENC, heavy=True, timeout=1800, bound="one step with a pending interrupt, everything else symbolic"),
+        H("c10_arbitration", stubbing=True, heavy=True, encodes=["<DeviceHandler as ExternalDevice>::poll_interrupt", "Interrupt::{vectored,external,priority}", "SimDevice::poll_interrupt"], bound="3 devices, any requests"),
+        H("c10_irq_entry", module="c10::k", cover_tags=["step", "mem", "calls", "depth"], stubbing=True, kani_args=_K_ARGS, encodes=_K_ENC, heavy=True, timeout=1800, bound="one step with a pending interrupt, everything else symbolic"),
     ],
 )
 
@@ -286,3 +296,4 @@ PROPS["C26"] = dict(
     assumptions=["Kani/CBMC/CaDiCaL"],
     harnesses=[H("c26_span_list_constructors", stubbing=True, encodes=["err::ErrSpan::{first,iter,extend}", "From<Span>/<[Span;N]>/<&[Span]>/<Vec<Span>> for ErrSpan", "asm::AsmErr::new"], bound="0..=3 spans")],
 )
+
